@@ -9,6 +9,7 @@ PLAN = {
             {"kind": "rapid", "test": "TestC12Conc", "checks": 800, "timeout": 900},
             {"kind": "rapid", "test": "TestC12Conc", "checks": 250, "race": True, "salt": 1, "timeout": 900},
             {"kind": "enum", "test": "TestC12SharedBuilder", "race": True, "timeout": 600},
+            {"kind": "enum", "test": "TestEnumFirstUse", "env": {"VERIF_FIRSTUSE_PROP": "C12"}, "timeout": 600},
         ],
         "thorough": [
             {"kind": "rapid", "test": "TestC12Hist", "checks": 20000, "shards": 16, "timeout": 3000},
@@ -16,6 +17,7 @@ PLAN = {
             {"kind": "rapid", "test": "TestC12Conc", "checks": 3000, "shards": 8, "timeout": 3000},
             {"kind": "rapid", "test": "TestC12Conc", "checks": 1200, "shards": 8, "race": True, "salt": 1, "timeout": 3000},
             {"kind": "enum", "test": "TestC12SharedBuilder", "race": True, "timeout": 600},
+            {"kind": "enum", "test": "TestEnumFirstUse", "env": {"VERIF_FIRSTUSE_PROP": "C12"}, "timeout": 600},
         ],
     },
     "C05": {
@@ -166,11 +168,13 @@ PLAN = {
         "quick": [
             {"kind": "enum", "test": "TestEnumC07", "env": {"VERIF_BOUND": 7, "VERIF_ALPHA": 8}, "timeout": 600},
             {"kind": "rapid", "test": "TestC07Laws", "checks": 30000},
+            {"kind": "enum", "test": "TestEnumFirstUse", "env": {"VERIF_FIRSTUSE_PROP": "C07"}, "timeout": 600},
         ],
         "thorough": [
             {"kind": "enum", "test": "TestEnumC07", "env": {"VERIF_BOUND": 8, "VERIF_ALPHA": 9}, "timeout": 3000},
             {"kind": "rapid", "test": "TestC07Laws", "checks": 300000, "shards": 16},
             {"kind": "fuzz", "test": "FuzzC07Bytes", "time": 60},
+            {"kind": "enum", "test": "TestEnumFirstUse", "env": {"VERIF_FIRSTUSE_PROP": "C07"}, "timeout": 600},
         ],
     },
     "C10": {
@@ -189,7 +193,7 @@ PLAN = {
 }
 
 RULES = {
-    "C12": "rapid, histories: 1-12 prior calls over all routes, weighted towards what can leave a pooled printer dirty (caught and propagating method panics, SafeFormat methods panicking mid-output, Safe/Unsafe overrides around user programs, bad verbs, %w use and misuse in HelperForErrorf, nested printers, outputs just below and above the 64 KiB pooling limit, error hook, registered types), with a probe after each call and then a battery of 15 fixed probe calls whose results are compared with references obtained on newly allocated printers (pool drained through the hook; GOMAXPROCS(1), GC off during a case so that the pool is not emptied behind the harness); a second generator compares the probes in a warm process with those printed by a freshly started subprocess. Non-trivial = the history contains an abnormal call and at least one probe ran on a recycled printer (no pool allocation during the probe, by the hook's counter). Schedules: 2-16 goroutines replay generated call lists concurrently (1/4 of the cases on one shared set of operand objects) with generated runtime.Gosched() injection; results are compared with single-threaded references, and the same property runs in a -race build where any race report is a violation; plus a fixed scenario (8 goroutines printing one StringBuilder with an open envelope). Non-trivial there = at least two calls actually overlapped (atomic phase counter). Distinct = distinct specs (64-bit fingerprint). The battery also holds probes that use 2 and 4 nested printers at once (reaching printers deeper in the pool) and print panicking Stringers inside nested printers; a fifth of the history calls is a Safe()/Unsafe()/bare re-entrant program whose nested Print/Printf meets a contained or a propagating panic.",
+    "C12": "rapid, histories: 1-12 prior calls over all routes, weighted towards what can leave a pooled printer dirty (caught and propagating method panics, SafeFormat methods panicking mid-output, Safe/Unsafe overrides around user programs, bad verbs, %w use and misuse in HelperForErrorf, nested printers, outputs just below and above the 64 KiB pooling limit, error hook, registered types), with a probe after each call and then a battery of 15 fixed probe calls whose results are compared with references obtained on newly allocated printers (pool drained through the hook; GOMAXPROCS(1), GC off during a case so that the pool is not emptied behind the harness); a second generator compares the probes in a warm process with those printed by a freshly started subprocess. Non-trivial = the history contains an abnormal call and at least one probe ran on a recycled printer (no pool allocation during the probe, by the hook's counter). Schedules: 2-16 goroutines replay generated call lists concurrently (1/4 of the cases on one shared set of operand objects) with generated runtime.Gosched() injection; results are compared with single-threaded references, and the same property runs in a -race build where any race report is a violation; plus a fixed scenario (8 goroutines printing one StringBuilder with an open envelope). Non-trivial there = at least two calls actually overlapped (atomic phase counter). Distinct = distinct specs (64-bit fingerprint). The battery also holds probes that use 2 and 4 nested printers at once (reaching printers deeper in the pool) and print panicking Stringers inside nested printers; a fifth of the history calls is a Safe()/Unsafe()/bare re-entrant program whose nested Print/Printf meets a contained or a propagating panic. First use: each of 28 public entry points is the first library call of a freshly started process, followed by all the others; results compared with a warm process. Concurrency cases take their sequential references after the concurrent phase and one in three lets several goroutines print a never-seen struct type with field names as their first call.",
     "C05": "rapid: route (Sprintf, Fprintf, Sprint, Fprint, StringBuilder.Printf, SafePrinter.Printf) x 1-3 directives with flags/width/precision and a verb valid for its operand class (string verbs v s q x X, integer verbs v d b o O x X c q U, float verbs, bool verbs) x operands that are leaves or containers of leaves to depth 2 ([]interface{}, [2]interface{}, struct with interface fields, single-entry map[interface{}]interface{} incl. its key) x configuration (every subset of the registrable pool, registry reset per case through the hook). Leaves: plain and named basic kinds, named kinds with String/Error methods, SafeString/SafeInt/SafeUint/SafeFloat, SafeValue-marked kinds, registrable kinds, Safe(x), Unsafe(x), untyped nil, scripted SafeFormatters (flagless directives). Oracle: fmt renders the same shape with every leaf inside an extent wrapper (sentinel + fmt.FormatString forwarding); from it T (full text) and S (unsafe extents reduced to their line feeds) are read off, and strip(out) == esc(T), delEnv(out) == esc(S). Non-trivial = at least one safe and one unsafe leaf and (nesting or a flag/width/precision/non-v verb). Distinct = distinct specs (64-bit fingerprint).",
     "C06": "rapid: x from the full value universe (1/2 of the cases) or the fmt-compatible one, including scripted Formatters that discover the SafePrinter behind their fmt.State and scripted SafeFormatters, both calling back through Print/Printf/Safe*/Unsafe*/Write with recursive operands, SafeValues, registered types, library-produced RedactableStrings, errors with an error hook installed; a directive without '*'; a wrapper chain W1(W2(W3(x))) of length 1-3; placed at top level, in a []interface{}, in an exported struct field or as a map value. Oracle: N - the chain prints exactly like W1(x); U1 - under an outermost Unsafe nothing of the rendering is outside envelopes (only the container's brackets and line feeds); U2 - at top level, for fmt-compatible x, the stripped text is what fmt prints for x; S1 - under an outermost Safe, for fmt-compatible x without classification of its own, no envelope and exactly fmt's characters (top level and in a slice); H - with a hook installed Unsafe(err) prints as without and the hook is not called. Non-trivial = x is itself classified (SafeValue, Safe-wrapped, registered, redactable, SafeFormatter, hooked error) or its method re-enters the printer. Distinct = distinct specs (64-bit fingerprint).",
     "C17": "rapid: configuration (hook installed with probability 0.9: a scripted function over the SafeWriter-op universe that can also emit the verb and err.Error(); registered safe types) x error values (value/pointer/errors.New/named-kind errors, wrapping, nil-receiver, error+Stringer, error+Formatter, error+SafeFormatter, error+SafeMessager) x positions (top level under every verb and flag incl. invalid and non-ASCII verbs, %T/%p, the %w of HelperForErrorf, []interface{}, []error, map values, exported and unexported struct fields, pointer to struct, arrays, reflect.Value, under Safe(), under Unsafe()) x routes (Sprint, Sprintf, Fprintf, HelperForErrorf). Oracle: output with the hook == output of the same shape with every dispatched error replaced by an error+SafeFormatter stand-in whose SafeFormat runs the hook's script (both shapes share all other objects); the hook is not called in the stand-in run (i.e. never for SafeFormatter/SafeMessager errors, %T/%p, unexported fields, under Unsafe()); the multiset of (error, verb) hook calls equals the stand-in's SafeFormat calls and their number equals the number of dispatched positions; Unsafe(err) prints as without hook and fully enveloped. Non-trivial = hook installed, at least one dispatched error, and not bare top-level %v. Distinct = distinct specs (64-bit fingerprint). A sixth of the hooks panics after its partial output (the stand-in then panics in SafeFormat; the two report names are identified); hooks may print the error's cause through the printer ('Cause' op: the hook is re-entered for it, chains of value-type uncomparable wrapping errors included) and operands of their own that are not errors, including ones whose methods panic.",
@@ -204,7 +208,7 @@ RULES = {
     "C03": "rapid: the same three generators as C01 (print cases over all routes / value universe / configurations; writer histories in 12 contexts; Join/JoinTo), judged by line-safety (well-formed and no line feed inside an envelope), well-formedness of every line of strings.Split(out, LF), and equality of line-wise and whole-string Redact / StripMarkers (string and bytes variants). The alphabets contain LF and LF LF tokens so that about 40% of unsafe payloads carry line feeds at their start, end or next to markers. Non-trivial = an unsafe-side payload contains a line feed and the output contains one. Distinct = distinct specs by 64-bit fingerprint.",
     "C09": "enumeration: breadth-first over all sequences of up to 3 (quick) / 5 (thorough) ops drawn from 50 op instances (17 SafeWriter/io.Writer methods x payloads from {a, space, LF, start marker, e-acute, 'a LF start-marker', empty}), with exact de-duplication of the buffer's hidden state through the verif hook; every transition is judged against the segment model, every retained path is also run on ManualBuffer, Sprintfn and a SafeFormat method. rapid: histories of up to 40 ops over the text or byte alphabet, with SetMode/raw-fragment writes for the buffer routes and Print/Printf ops. Non-trivial = the history has ops of at least two classes (safe/unsafe/pre-redactable) or a payload containing a marker byte or a line feed. Distinct = distinct reached buffer states (enumeration) / distinct histories (rapid), by 64-bit fingerprint. Payloads are now and then long (25-140 tokens), run-structured (plain runs of 0-160 bytes each followed by a special token, so that special bytes fall at every offset modulo any window) or huge (filler up to one of 16 size thresholds from 60 B to 70 KB with tokens at the threshold), and one history in 25 contains a bulk write at such a threshold; SafeFormat histories are also run under %+v and %#v.",
     "C13": "enumeration: at every buffer state reachable by up to 2 (quick) / 3 (thorough) ops over the C09 op instances, each accessor (Len, Cap, String, RedactableString, RedactableBytes, GetMode), Reset, TakeRedactableString and TakeRedactableBytes is applied with and without spare capacity and followed by each of 4 suffix ops; rapid: histories of up to 25+10 ops with accessor calls inserted at random positions, an optional Reset/Take in the middle, an initial Grow of 0/1/3/7/64/100, on StringBuilder or ManualBuffer. Non-trivial = some accessor/Reset/Take ran while an envelope was open or unescaped bytes were pending (observed through the hook). Distinct = distinct specs by 64-bit fingerprint. One history in 25 contains a bulk write at a size threshold (60 B .. 70 KB), so that accessors, Reset and Take also run on big buffers.",
-    "C07": "enumeration: every string of up to 7 (quick) / 8 (thorough) tokens over {start marker, end marker, cross, LF, 'a', E2, 80, B9[, BA]} through Redact/StripMarkers (string and bytes variants, ToBytes/ToString), with the concatenation law at every token boundary; rapid: strings of up to 30 tokens over the byte alphabet with toggled envelopes (3/4 biased to well-formed) and pairs for the concatenation law. Non-trivial = the string contains at least one marker. Distinct = distinct input strings (64-bit FNV fingerprint). One case in about a hundred embeds the string between 60 B - 70 KB of well-formed filler lines (size-dependent paths), and every case first overwrites the slices returned by StartMarker/EndMarker/RedactedMarker (a caller owns them).",
+    "C07": "enumeration: every string of up to 7 (quick) / 8 (thorough) tokens over {start marker, end marker, cross, LF, 'a', E2, 80, B9[, BA]} through Redact/StripMarkers (string and bytes variants, ToBytes/ToString), with the concatenation law at every token boundary; rapid: strings of up to 30 tokens over the byte alphabet with toggled envelopes (3/4 biased to well-formed) and pairs for the concatenation law. Non-trivial = the string contains at least one marker. Distinct = distinct input strings (64-bit FNV fingerprint). One case in about a hundred embeds the string between 60 B - 70 KB of well-formed filler lines (size-dependent paths), and every case first overwrites the slices returned by StartMarker/EndMarker/RedactedMarker (a caller owns them). First use: each of the 9 marker-transformation entry points is the first library call of a freshly started process, followed by all other entry points; results compared with a warm process.",
     "C10": "enumeration: every byte string up to the length bound over {E2,80,B9,BA,'a',LF,'?',C3[,space]} through EscapeMarkers/EscapeBytes, and through the internal routine for every start offset and both line-break settings; rapid: strings of up to 40 tokens over the byte alphabet (markers, marker bytes, other lead bytes, FF, text) and random splits of one payload into Write/WriteString calls on a ManualBuffer. Non-trivial = the input contains a full marker or an individual marker byte (for splits: and at least one cut). Distinct = distinct (check, input, offset, flag) by 64-bit FNV fingerprint (set capped at 4M per process). One split case in 15 is 'small head + one chunk at a size threshold (60 B .. 70 KB) + small tail' with cuts around the chunk; payload alphabets include marker look-alikes (runes sharing two trailing bytes with a marker).",
 }
 
